@@ -91,6 +91,59 @@ def evQ (cfg : Cfg) : QExpr → Option Numeric
     | _, _ => none
   | .fact _ _ _ => none
 
+/-! ### Which error -/
+
+/-- The error of a refused `to`. -/
+def castKind (T : Compound) (r : Numeric) : Option ErrKind :=
+  match Compound.factor T r.unit r.value with
+  | .ok (some _) => none
+  | .ok none => some .illegalCast
+  | .error _ => some .conversionNotPossible
+
+/-- The error of a refused `+` / `-`. -/
+def addKind (a b : Numeric) : Option ErrKind :=
+  match Compound.factor a.unit b.unit b.value with
+  | .ok (some _) => none
+  | .ok none => some .illegalOperation
+  | .error _ => some .conversionNotPossible
+
+/-- The error of a refused `*` / `/`. -/
+def mulDivKind (cfg : Cfg) (a b : Numeric) (div : Bool) : Option ErrKind :=
+  match Compound.mul cfg.debug a.unit b.unit (if div then -1 else 1) a.value b.value with
+  | .ok (_, _, bv) => if div then (if bv = 0 then some .divideByZero else none) else none
+  | .error _ => some .conversionNotPossible
+
+/-- The error of a refused `^`. -/
+def powKind (base p : Numeric) : Option ErrKind :=
+  if !p.unit.isEmpty then some .illegalPowerUnit
+  else if p.value.den ≠ 1 then some .illegalPowerNonInteger
+  else
+    let n := p.value.num
+    if !base.unit.isEmpty && (n < -2147483648 || n > 2147483647 || !Compound.powFits base.unit n) then
+      some .badArgument
+    else if n = 0 then none
+    else if base.value = 0 then (if n < 0 then some .divideByZero else none)
+    else none
+
+def binKind (cfg : Cfg) (op : BinOp) (a b : Numeric) : Option ErrKind :=
+  match op with
+  | .add => addKind a b
+  | .sub => addKind a b
+  | .mul => mulDivKind cfg a b false
+  | .div => mulDivKind cfg a b true
+  | .pow => powKind a b
+
+/-- The error kinds the evaluation of `e` may report: the kind of an operation that fails on
+operands which have values, anywhere in `e`. (Which one is reported when several operations fail
+depends on the shape of the tree, not only on `e`.) -/
+def Kinds (cfg : Cfg) : QExpr → ErrKind → Prop
+  | .bin op a b, k => Kinds cfg a k ∨ Kinds cfg b k ∨
+      ∃ ra rb, evQ cfg a = some ra ∧ evQ cfg b = some rb ∧ binKind cfg op ra rb = some k
+  | .cast a u, k => Kinds cfg a k ∨
+      ∃ T r, unitOf u = some T ∧ evQ cfg a = some r ∧ castKind T r = some k
+  | .paren e, k => Kinds cfg e k
+  | _, _ => False
+
 /-! ### Scope -/
 
 /-- The written factor is read by the tool as the specification resolves it (one piece: this
@@ -139,13 +192,13 @@ theorem add_addQ (s e : Nat) (a b : Numeric) (sub : Bool) (d : List Desc)
     (ka : AllKnown a.unit) (kb : AllKnown b.unit) :
     match addQ a b sub with
     | some r => Eval.add s e a b sub d = (.ok r, d) ∧ AllKnown r.unit
-    | none => ∃ k, Eval.add s e a b sub d = (.error (.err k s e), d) := by
-  unfold addQ Eval.add
+    | none => ∃ k, Eval.add s e a b sub d = (.error (.err k s e), d) ∧ addKind a b = some k := by
+  unfold addQ addKind Eval.add
   cases hf : Compound.factor a.unit b.unit b.value with
-  | error c => exact ⟨_, rfl⟩
+  | error c => exact ⟨_, rfl, rfl⟩
   | ok o =>
     cases o with
-    | none => exact ⟨_, rfl⟩
+    | none => exact ⟨_, rfl, rfl⟩
     | some bv =>
       refine ⟨rfl, ?_⟩
       simp only
@@ -157,14 +210,15 @@ theorem mulDiv_mulDivQ (cfg : Cfg) (s e : Nat) (a b : Numeric) (div : Bool) (d :
     (ka : AllKnown a.unit) (kb : AllKnown b.unit) :
     match mulDivQ cfg a b div with
     | some r => Eval.mulDiv cfg s e a b div d = (.ok r, d) ∧ AllKnown r.unit
-    | none => ∃ k, Eval.mulDiv cfg s e a b div d = (.error (.err k s e), d) := by
+    | none => ∃ k, Eval.mulDiv cfg s e a b div d = (.error (.err k s e), d) ∧
+        mulDivKind cfg a b div = some k := by
   have hn : (if div then (-1 : Int) else 1) ≠ 0 := by cases div <;> simp
   have hna := Props.C11.C11_mul_no_assert cfg.debug a.unit b.unit _ a.value b.value hn ka kb
-  unfold mulDivQ Eval.mulDiv
+  unfold mulDivQ mulDivKind Eval.mulDiv
   cases hm : Compound.mul cfg.debug a.unit b.unit (if div then -1 else 1) a.value b.value with
   | error c =>
     cases c with
-    | conversion => exact ⟨_, rfl⟩
+    | conversion => exact ⟨_, rfl, rfl⟩
     | zeroPower => exact absurd hm hna
   | ok res =>
     obtain ⟨unit, av, bv⟩ := res
@@ -174,7 +228,7 @@ theorem mulDiv_mulDivQ (cfg : Cfg) (s e : Nat) (a b : Numeric) (div : Bool) (d :
     | true =>
       simp only [↓reduceIte]
       by_cases hz : bv = 0
-      · simp only [hz, ↓reduceIte]; exact ⟨_, rfl⟩
+      · simp only [hz, ↓reduceIte]; exact ⟨_, rfl, rfl⟩
       · simp only [hz, ↓reduceIte]; exact ⟨rfl, hk⟩
     | false =>
       simp only [Bool.false_eq_true, ↓reduceIte]; exact ⟨rfl, hk⟩
@@ -182,30 +236,30 @@ theorem mulDiv_mulDivQ (cfg : Cfg) (s e : Nat) (a b : Numeric) (div : Bool) (d :
 theorem pow_powQ (s e : Nat) (a b : Numeric) (d : List Desc) (ka : AllKnown a.unit) :
     match powQ a b with
     | some r => Eval.pow s e a b d = (.ok r, d) ∧ AllKnown r.unit
-    | none => ∃ k, Eval.pow s e a b d = (.error (.err k s e), d) := by
+    | none => ∃ k, Eval.pow s e a b d = (.error (.err k s e), d) ∧ powKind a b = some k := by
   have hku : AllKnown (if a.unit.isEmpty then a.unit else Compound.checkedPow a.unit b.value.num) := by
     split
     · exact ka
     · exact allKnown_checkedPow ka _
-  unfold powQ Eval.pow
+  unfold powQ powKind Eval.pow
   by_cases h1 : (!b.unit.isEmpty) = true
-  · rw [if_pos h1, if_pos h1]; exact ⟨_, rfl⟩
-  rw [if_neg h1, if_neg h1]
+  · rw [if_pos h1, if_pos h1, if_pos h1]; exact ⟨_, rfl, rfl⟩
+  rw [if_neg h1, if_neg h1, if_neg h1]
   by_cases h2 : b.value.den ≠ 1
-  · rw [if_pos h2, if_pos h2]; exact ⟨_, rfl⟩
-  rw [if_neg h2, if_neg h2]
+  · rw [if_pos h2, if_pos h2, if_pos h2]; exact ⟨_, rfl, rfl⟩
+  rw [if_neg h2, if_neg h2, if_neg h2]
   simp only
   by_cases h3 : (!a.unit.isEmpty && (decide (b.value.num < -2147483648) ||
       decide (b.value.num > 2147483647) || !Compound.powFits a.unit b.value.num)) = true
-  · rw [if_pos h3, if_pos h3]; exact ⟨_, rfl⟩
-  rw [if_neg h3, if_neg h3]
+  · rw [if_pos h3, if_pos h3, if_pos h3]; exact ⟨_, rfl, rfl⟩
+  rw [if_neg h3, if_neg h3, if_neg h3]
   by_cases h4 : b.value.num = 0
   · rw [if_pos h4, if_pos h4]; exact ⟨rfl, hku⟩
-  rw [if_neg h4, if_neg h4]
+  rw [if_neg h4, if_neg h4, if_neg h4]
   by_cases h5 : a.value = 0
-  · rw [if_pos h5, if_pos h5]
+  · rw [if_pos h5, if_pos h5, if_pos h5]
     by_cases h6 : b.value.num < 0
-    · rw [if_pos h6, if_pos h6]; exact ⟨_, rfl⟩
+    · rw [if_pos h6, if_pos h6, if_pos h6]; exact ⟨_, rfl, rfl⟩
     · rw [if_neg h6, if_neg h6]; exact ⟨rfl, hku⟩
   · rw [if_neg h5, if_neg h5]; exact ⟨rfl, hku⟩
 
@@ -213,7 +267,8 @@ theorem binEval_binQ (cfg : Cfg) (op : BinOp) (s e : Nat) (a b : Numeric) (d : L
     (ka : AllKnown a.unit) (kb : AllKnown b.unit) :
     match binQ cfg op a b with
     | some r => binEval cfg op s e a b d = (.ok r, d) ∧ AllKnown r.unit
-    | none => ∃ k, binEval cfg op s e a b d = (.error (.err k s e), d) := by
+    | none => ∃ k, binEval cfg op s e a b d = (.error (.err k s e), d) ∧
+        binKind cfg op a b = some k := by
   cases op with
   | add => exact add_addQ s e a b false d ka kb
   | sub => exact add_addQ s e a b true d ka kb
@@ -224,16 +279,16 @@ theorem binEval_binQ (cfg : Cfg) (op : BinOp) (s e : Nat) (a b : Numeric) (d : L
 /-! ### Outcomes -/
 
 /-- The evaluator answers the reference evaluation: that value (made of known units), or an
-`err`; the log is untouched. -/
+`err` of one of the kinds `Kinds`; the log is untouched. -/
 def EvOK (cfg : Cfg) (e : QExpr) (d : List Desc) (res : Except EvalErr Numeric × List Desc) : Prop :=
   match evQ cfg e with
   | some r => res = (.ok r, d) ∧ AllKnown r.unit
-  | none => ∃ k s t, res = (.error (.err k s t), d)
+  | none => ∃ k s t, res = (.error (.err k s t), d) ∧ Kinds cfg e k
 
 theorem evOK_iff (cfg : Cfg) (e : QExpr) (d : List Desc) (res : Except EvalErr Numeric × List Desc) :
     EvOK cfg e d res ↔
       (∃ r, evQ cfg e = some r ∧ res = (.ok r, d) ∧ AllKnown r.unit) ∨
-      (evQ cfg e = none ∧ ∃ k s t, res = (.error (.err k s t), d)) := by
+      (evQ cfg e = none ∧ ∃ k s t, res = (.error (.err k s t), d) ∧ Kinds cfg e k) := by
   unfold EvOK
   cases evQ cfg e with
   | none => simp
@@ -260,6 +315,13 @@ theorem evQ_fold_none {cfg : Cfg} {R : Tree → QExpr → Prop} {acc e : QExpr} 
   | cons _ _ _ ih => exact fun hb => ih (evQ_bin_none_left hb)
   | cast _ _ _ ih => exact fun hb => ih (evQ_cast_none hb)
 
+theorem kinds_fold {cfg : Cfg} {R : Tree → QExpr → Prop} {acc e : QExpr} {ts : List Tree}
+    {k : ErrKind} (h : FoldRQ R acc ts e) : Kinds cfg acc k → Kinds cfg e k := by
+  induction h with
+  | nil acc => exact id
+  | cons _ _ _ ih => exact fun hb => ih (Or.inl hb)
+  | cast _ _ _ ih => exact fun hb => ih (Or.inl hb)
+
 theorem inScope_fold {R : Tree → QExpr → Prop} {acc e : QExpr} {ts : List Tree}
     (h : FoldRQ R acc ts e) : InScope e → InScope acc := by
   induction h with
@@ -275,13 +337,14 @@ theorem step_binT (cfg : Cfg) (F : Nat) (node : At) (base : Delayed) (oa xa : At
     (∃ r, evQ cfg (.bin op acc b) = some r ∧ AllKnown r.unit ∧
       opFold cfg (F + 1) node base (oa :: xa :: rest) d = opFold cfg F node (.num r) rest d) ∨
     (evQ cfg (.bin op acc b) = none ∧
-      ∃ k s t, opFold cfg (F + 1) node base (oa :: xa :: rest) d = (.error (.err k s t), d)) := by
+      ∃ k s t, opFold cfg (F + 1) node base (oa :: xa :: rest) d = (.error (.err k s t), d) ∧
+        Kinds cfg (.bin op acc b) k) := by
   rw [opFold_step cfg F node base oa xa rest op ho]
   simp only [bind_apply]
-  rcases (evOK_iff _ _ _ _).mp hx with ⟨rb, hb, hrb, kb⟩ | ⟨hb, k, s, t, hr⟩
+  rcases (evOK_iff _ _ _ _).mp hx with ⟨rb, hb, hrb, kb⟩ | ⟨hb, k, s, t, hr, hK⟩
   · rw [hrb]
     simp only
-    rcases (evOK_iff _ _ _ _).mp hbase with ⟨ra, ha, hra, ka⟩ | ⟨ha, k, s, t, hr⟩
+    rcases (evOK_iff _ _ _ _).mp hbase with ⟨ra, ha, hra, ka⟩ | ⟨ha, k, s, t, hr, hK⟩
     · rw [hra]
       simp only
       have hstep := binEval_binQ cfg op node.off node.stop ra rb d ka kb
@@ -293,11 +356,11 @@ theorem step_binT (cfg : Cfg) (F : Nat) (node : At) (base : Delayed) (oa xa : At
         exact ⟨r, hev.trans hq, hstep.2, by rw [hstep.1]⟩
       | none =>
         rw [hq] at hstep
-        obtain ⟨k, hk⟩ := hstep
+        obtain ⟨k, hk, hkind⟩ := hstep
         right
-        exact ⟨hev.trans hq, k, _, _, by rw [hk]⟩
-    · rw [hr]; right; exact ⟨evQ_bin_none_left ha, k, s, t, rfl⟩
-  · rw [hr]; right; exact ⟨evQ_bin_none_right hb, k, s, t, rfl⟩
+        exact ⟨hev.trans hq, k, _, _, by rw [hk], Or.inr (Or.inr ⟨ra, rb, ha, hb, hkind⟩)⟩
+    · rw [hr]; right; exact ⟨evQ_bin_none_left ha, k, s, t, rfl, Or.inl hK⟩
+  · rw [hr]; right; exact ⟨evQ_bin_none_right hb, k, s, t, rfl, Or.inr (Or.inl hK)⟩
 
 theorem step_castT (cfg : Cfg) (F : Nat) (node : At) (base : Delayed) (oa xa : At)
     (rest : List At) (acc : QExpr) (u : List RTerm) (d : List Desc) (ho : oa.t.kind = .OP_CAST)
@@ -305,24 +368,28 @@ theorem step_castT (cfg : Cfg) (F : Nat) (node : At) (base : Delayed) (oa xa : A
     (∃ r, evQ cfg (.cast acc u) = some r ∧ AllKnown r.unit ∧
       opFold cfg (F + 1) node base (oa :: xa :: rest) d = opFold cfg F node (.num r) rest d) ∨
     (evQ cfg (.cast acc u) = none ∧
-      ∃ k s t, opFold cfg (F + 1) node base (oa :: xa :: rest) d = (.error (.err k s t), d)) := by
+      ∃ k s t, opFold cfg (F + 1) node base (oa :: xa :: rest) d = (.error (.err k s t), d) ∧
+        Kinds cfg (.cast acc u) k) := by
   obtain ⟨T, hTu⟩ := hu.2
   obtain ⟨hT, kT⟩ := unit_unitOf xa.t u T xa.off d hx hu hTu
   rw [at_eta] at hT
-  rcases (evOK_iff _ _ _ _).mp hbase with ⟨ra, ha, hra, ka⟩ | ⟨ha, k, s, t, hr⟩
+  rcases (evOK_iff _ _ _ _).mp hbase with ⟨ra, ha, hra, ka⟩ | ⟨ha, k, s, t, hr, hK⟩
   · rw [Props.C02.opFold_cast cfg F node oa xa rest base d d d T ra ho hT hra]
     have hev : evQ cfg (.cast acc u) = castQ T ra := by simp [evQ, ha, hTu]
+    have hkind : ∀ k, castKind T ra = some k → Kinds cfg (.cast acc u) k :=
+      fun k hk => Or.inr ⟨T, ra, hTu, ha, hk⟩
     unfold castQ at hev
+    unfold castKind at hkind
     cases hf : Compound.factor T ra.unit ra.value with
     | error c =>
-      rw [hf] at hev
-      right; exact ⟨hev, _, _, _, rfl⟩
+      rw [hf] at hev hkind
+      right; exact ⟨hev, _, _, _, rfl, hkind _ rfl⟩
     | ok o =>
       cases o with
-      | none => rw [hf] at hev; right; exact ⟨hev, _, _, _, rfl⟩
+      | none => rw [hf] at hev hkind; right; exact ⟨hev, _, _, _, rfl, hkind _ rfl⟩
       | some v => rw [hf] at hev; left; exact ⟨_, hev, kT, rfl⟩
   · right
-    refine ⟨evQ_cast_none ha, k, s, t, ?_⟩
+    refine ⟨evQ_cast_none ha, k, s, t, ?_, Or.inl hK⟩
     rw [opFold]
     simp only [ho, bind, hT, hr]
 
@@ -334,7 +401,7 @@ def EvalOKT (cfg : Cfg) (f : Nat) : Prop :=
 
 def FoldOutT (cfg : Cfg) (e : QExpr) (d : List Desc) (res : Except EvalErr Delayed × List Desc) : Prop :=
   (∃ r, evQ cfg e = some r ∧ res = (.ok (.num r), d) ∧ AllKnown r.unit) ∨
-  (evQ cfg e = none ∧ ∃ k s t, res = (.error (.err k s t), d))
+  (evQ cfg e = none ∧ ∃ k s t, res = (.error (.err k s t), d) ∧ Kinds cfg e k)
 
 theorem evOK_num (cfg : Cfg) (F : Nat) {acc : QExpr} {r : Numeric} (d : List Desc)
     (hv : evQ cfg acc = some r) (hk : AllKnown r.unit) :
@@ -371,11 +438,11 @@ theorem fold_numT (cfg : Cfg) (N : Nat) (ih : ∀ f, f ≤ N → EvalOKT cfg f)
       have hxo := ih F' (by omega) x b xa.off d (by omega) hx hub.2
       rw [← h2, at_eta] at hxo
       rcases step_binT cfg F' node (.num r) oa xa rest' op acc b d (h1 ▸ ho) hxo
-        (evOK_num cfg F' d hv hk) with ⟨r', hv', hk', heq⟩ | ⟨hnone, k, s, t, heq⟩
+        (evOK_num cfg F' d hv hk) with ⟨r', hv', hk', heq⟩ | ⟨hnone, k, s, t, heq, hK⟩
       · rw [heq]
         exact ihf rest' F' r' node d h3 (by omega) hv' hk' (by omega) hu
       · right
-        exact ⟨evQ_fold_none htail hnone, k, s, t, heq⟩
+        exact ⟨evQ_fold_none htail hnone, k, s, t, heq, kinds_fold htail hK⟩
   | @cast acc o x u e ts' ho hx htail ihf =>
     intro rest F r node d hr hF hv hk hsz hu
     match rest, hr with
@@ -389,11 +456,11 @@ theorem fold_numT (cfg : Cfg) (N : Nat) (ih : ∀ f, f ≤ N → EvalOKT cfg f)
       have hub := inScope_fold htail hu
       simp only [InScope] at hub
       rcases step_castT cfg F' node (.num r) oa xa rest' acc u d (h1 ▸ ho) (h2 ▸ hx) hub.2
-        (evOK_num cfg F' d hv hk) with ⟨r', hv', hk', heq⟩ | ⟨hnone, k, s, t, heq⟩
+        (evOK_num cfg F' d hv hk) with ⟨r', hv', hk', heq⟩ | ⟨hnone, k, s, t, heq, hK⟩
       · rw [heq]
         exact ihf rest' F' r' node d h3 (by omega) hv' hk' (by omega) hu
       · right
-        exact ⟨evQ_fold_none htail hnone, k, s, t, heq⟩
+        exact ⟨evQ_fold_none htail hnone, k, s, t, heq, kinds_fold htail hK⟩
 
 theorem evalOKT_all (cfg : Cfg) : ∀ f, EvalOKT cfg f := by
   intro f
@@ -445,7 +512,7 @@ theorem evalOKT_all (cfg : Cfg) : ∀ f, EvalOKT cfg f := by
       simp only [eval, kind_node, hLeq, opFold, bind_apply, pure, force]
       have := ih' F' (by omega) x e' xa.off d (by omega) hx hu
       rw [← hxa, at_eta] at this
-      simpa [EvOK, evQ] using this
+      simpa [EvOK, evQ, Kinds] using this
     | @chain id ks x₀ rest0 e₀ _ hop hne hx0 hfold0 =>
       have hL := at_opKids ⟨off, .node id .OPERATION ks⟩
       simp only [kids_node, hop] at hL
@@ -477,12 +544,12 @@ theorem evalOKT_all (cfg : Cfg) : ∀ f, EvalOKT cfg f := by
           rw [← hx1a, at_eta] at hxo
           rcases step_binT cfg F' ⟨off, .node id .OPERATION ks⟩ (.node x0a) oa x1a resta op e₀ b d
             (hoa ▸ ho) hxo (hbase F' (by omega) (by omega)) with
-            ⟨r', hv', hk', heq⟩ | ⟨hnone, k, s, t, heq⟩
+            ⟨r', hv', hk', heq⟩ | ⟨hnone, k, s, t, heq, hK⟩
           · rw [heq]
             exact fold_numT cfg (F' + 1) ih' htail resta F' r' _ d hresta (by omega) hv' hk'
               (by omega) hu
           · right
-            exact ⟨evQ_fold_none htail hnone, k, s, t, heq⟩
+            exact ⟨evQ_fold_none htail hnone, k, s, t, heq, kinds_fold htail hK⟩
         | @cast _ o x₁ u _ rest ho hx1 htail =>
           obtain ⟨oa, L2, rfl, hoa, hL2⟩ := map_eq_cons hL1
           obtain ⟨x1a, resta, rfl, hx1a, hresta⟩ := map_eq_cons hL2
@@ -494,19 +561,19 @@ theorem evalOKT_all (cfg : Cfg) : ∀ f, EvalOKT cfg f := by
           simp only [InScope] at hub
           rcases step_castT cfg F' ⟨off, .node id .OPERATION ks⟩ (.node x0a) oa x1a resta e₀ u d
             (hoa ▸ ho) (hx1a ▸ hx1) hub.2 (hbase F' (by omega) (by omega)) with
-            ⟨r', hv', hk', heq⟩ | ⟨hnone, k, s, t, heq⟩
+            ⟨r', hv', hk', heq⟩ | ⟨hnone, k, s, t, heq, hK⟩
           · rw [heq]
             exact fold_numT cfg (F' + 1) ih' htail resta F' r' _ d hresta (by omega) hv' hk'
               (by omega) hu
           · right
-            exact ⟨evQ_fold_none htail hnone, k, s, t, heq⟩
+            exact ⟨evQ_fold_none htail hnone, k, s, t, heq, kinds_fold htail hK⟩
       simp only [eval, kind_node, hLeq, bind_apply]
-      rcases key with ⟨r, hv, hr, hk⟩ | ⟨hnone, k, s, t, hr⟩
+      rcases key with ⟨r, hv, hr, hk⟩ | ⟨hnone, k, s, t, hr, hK⟩
       · rw [hr]
         simp only [force_num]
         exact (evOK_iff _ _ _ _).mpr (Or.inl ⟨r, hv, rfl, hk⟩)
       · rw [hr]
-        exact (evOK_iff _ _ _ _).mpr (Or.inr ⟨hnone, k, s, t, rfl⟩)
+        exact (evOK_iff _ _ _ _).mpr (Or.inr ⟨hnone, k, s, t, rfl, hK⟩)
 
 /-- **The evaluator on a tree that represents `e` answers the reference evaluation of `e`** —
 for any units, offset scales included. -/
@@ -517,18 +584,19 @@ theorem eval_evQ (cfg : Cfg) (t : Tree) (e : QExpr) (off fuel : Nat) (d : List D
 
 /-! ### The whole pipeline -/
 
-/-- What `Eval.query` answers: exactly one result, the reference value or an `err`; no
-descriptions. -/
-def QueryIs (o : Option Numeric)
+/-- What `Eval.query` answers: exactly one result, the reference value or an `err` of one of the
+kinds `K`; no descriptions. -/
+def QueryIs (K : ErrKind → Prop) (o : Option Numeric)
     (res : Except BErr (List (Except EvalErr Numeric) × List Desc)) : Prop :=
   match o with
   | some r => res = .ok ([.ok r], [])
-  | none => ∃ k s t, res = .ok ([.error (.err k s t)], [])
+  | none => ∃ k s t, res = .ok ([.error (.err k s t)], []) ∧ K k
 
 /-- **`Eval.query` on the rendering of a quantity expression** (lexer, parser, `eval::unit`,
 evaluator) answers the reference evaluation `evQ`, for any units. -/
 theorem query_evQ (cfg : Cfg) (e : QExpr) (ws : Layout) (hwf : WFQ e) (hl : QueryLayoutOKQ e ws)
-    (hu : InScope e) : QueryIs (evQ cfg e) (Eval.query cfg (renderQuery e ws)) := by
+    (hu : InScope e) :
+    QueryIs (Kinds cfg e) (evQ cfg e) (Eval.query cfg (renderQuery e ws)) := by
   obtain ⟨forest, hparse, Wt, x, Wt', hf, hWt, hWt', hx⟩ := parse_renderQ e ws hwf hl
   unfold Eval.query
   rw [hparse]
@@ -550,8 +618,113 @@ theorem query_evQ (cfg : Cfg) (e : QExpr) (ws : Layout) (hwf : WFQ e) (hl : Quer
     simp only [hev.1, h2']
   | none =>
     rw [hd] at hev
-    obtain ⟨k, s, t, hk⟩ := hev
-    refine ⟨k, s, t, ?_⟩
+    obtain ⟨k, s, t, hk, hK⟩ := hev
+    refine ⟨k, s, t, ?_, hK⟩
     simp only [hk, h2']
+
+/-! ### A value has no error kind -/
+
+theorem binKind_none_of_some {cfg : Cfg} {op : BinOp} {a b r : Numeric}
+    (h : binQ cfg op a b = some r) : binKind cfg op a b = none := by
+  cases op <;> simp only [binQ, binKind] at h ⊢
+  · unfold addQ at h; unfold addKind
+    cases hf : Compound.factor a.unit b.unit b.value with
+    | error c => rw [hf] at h; cases h
+    | ok o => cases o with
+      | none => rw [hf] at h; cases h
+      | some v => rfl
+  · unfold addQ at h; unfold addKind
+    cases hf : Compound.factor a.unit b.unit b.value with
+    | error c => rw [hf] at h; cases h
+    | ok o => cases o with
+      | none => rw [hf] at h; cases h
+      | some v => rfl
+  · unfold mulDivQ at h; unfold mulDivKind
+    cases hm : Compound.mul cfg.debug a.unit b.unit (if false = true then -1 else 1) a.value b.value with
+    | error c => rw [hm] at h; cases h
+    | ok res => simp
+  · unfold mulDivQ at h; unfold mulDivKind
+    cases hm : Compound.mul cfg.debug a.unit b.unit (if true = true then -1 else 1) a.value b.value with
+    | error c => rw [hm] at h; cases h
+    | ok res =>
+      obtain ⟨u, av, bv⟩ := res
+      rw [hm] at h
+      simp only [↓reduceIte] at h ⊢
+      by_cases hz : bv = 0
+      · simp [hz] at h
+      · simp [hz]
+  · unfold powQ at h; unfold powKind
+    by_cases h1 : (!b.unit.isEmpty) = true
+    · rw [if_pos h1] at h; cases h
+    rw [if_neg h1] at h ⊢
+    by_cases h2 : b.value.den ≠ 1
+    · rw [if_pos h2] at h; cases h
+    rw [if_neg h2] at h ⊢
+    simp only at h ⊢
+    by_cases h3 : (!a.unit.isEmpty && (decide (b.value.num < -2147483648) ||
+        decide (b.value.num > 2147483647) || !Compound.powFits a.unit b.value.num)) = true
+    · rw [if_pos h3] at h; cases h
+    rw [if_neg h3] at h ⊢
+    by_cases h4 : b.value.num = 0
+    · rw [if_pos h4]
+    rw [if_neg h4] at h ⊢
+    by_cases h5 : a.value = 0
+    · rw [if_pos h5] at h ⊢
+      by_cases h6 : b.value.num < 0
+      · rw [if_pos h6] at h; cases h
+      · rw [if_neg h6]
+    · rw [if_neg h5]
+
+theorem castKind_none_of_some {T : Compound} {a r : Numeric} (h : castQ T a = some r) :
+    castKind T a = none := by
+  unfold castQ at h; unfold castKind
+  cases hf : Compound.factor T a.unit a.value with
+  | error c => rw [hf] at h; cases h
+  | ok o => cases o with
+    | none => rw [hf] at h; cases h
+    | some v => rfl
+
+/-- An expression that has a reference value has no error kind. -/
+theorem kinds_of_some (cfg : Cfg) : ∀ (e : QExpr) (r : Numeric) (k : ErrKind),
+    evQ cfg e = some r → ¬ Kinds cfg e k
+  | .num _, _, _, _ => fun h => h
+  | .qty _ _, _, _, _ => fun h => h
+  | .fact _ _ _, _, _, _ => fun h => h
+  | .paren e, r, k, h => by
+    simp only [Kinds]
+    exact kinds_of_some cfg e r k (by simpa [evQ] using h)
+  | .cast a u, r, k, h => by
+    simp only [evQ] at h
+    cases hT : unitOf u with
+    | none => rw [hT] at h; cases h
+    | some T =>
+      cases ha : evQ cfg a with
+      | none => rw [hT, ha] at h; cases h
+      | some ra =>
+        rw [hT, ha] at h
+        simp only [Kinds]
+        rintro (hK | ⟨T', r', hT', hr', hk⟩)
+        · exact kinds_of_some cfg a ra k ha hK
+        · rw [hT] at hT'; rw [ha] at hr'
+          cases hT'; cases hr'
+          rw [castKind_none_of_some h] at hk
+          cases hk
+  | .bin op a b, r, k, h => by
+    simp only [evQ] at h
+    cases ha : evQ cfg a with
+    | none => rw [ha] at h; cases h
+    | some ra =>
+      cases hb : evQ cfg b with
+      | none => rw [ha, hb] at h; cases h
+      | some rb =>
+        rw [ha, hb] at h
+        simp only [Kinds]
+        rintro (hK | hK | ⟨ra', rb', ha', hb', hk⟩)
+        · exact kinds_of_some cfg a ra k ha hK
+        · exact kinds_of_some cfg b rb k hb hK
+        · rw [ha] at ha'; rw [hb] at hb'
+          cases ha'; cases hb'
+          rw [binKind_none_of_some h] at hk
+          cases hk
 
 end Anything.C9Q
